@@ -167,4 +167,150 @@ theorem recvAll_serialized (F : List UDPMessage) (hF : ∀ f ∈ F, 1 ≤ f.addr
     simp only [recvAll, List.mem_filterMap]
     exact ⟨serialize f, hs, by rw [hp f hf]⟩
 
+/-! ### sessions -/
+
+theorem pktIDOfDraw_inj (a b : Nat) (ha : a < 65535) (hb : b < 65535) (h : pktIDOfDraw a = pktIDOfDraw b) : a = b := by
+  have h1 := pktIDOfDraw_val a ha
+  have h2 := pktIDOfDraw_val b hb
+  rw [h] at h1; omega
+
+theorem pairwise_draw_eq (ps : List Pkt) (hd : ps.Pairwise (fun p q => p.draw ≠ q.draw))
+    (p q : Pkt) (hp : p ∈ ps) (hq : q ∈ ps) (e : p.draw = q.draw) : p = q := by
+  induction ps with
+  | nil => simp at hp
+  | cons x xs ih =>
+    rw [List.pairwise_cons] at hd
+    simp only [List.mem_cons] at hp hq
+    rcases hp with rfl | hp <;> rcases hq with rfl | hq
+    · rfl
+    · exact absurd e (hd.1 q hq)
+    · exact absurd e.symm (hd.1 p hp)
+    · exact ih hd.2 hp hq
+
+/-- every result of a session is the result of sending ONE of its packets on its own, and the
+    i-th result belongs to the i-th packet -/
+theorem sessionSend_get (logger stop : Bool) (bufLen : Nat) (ps : List Pkt)
+    (rs : List (List Handed × Option SendErr)) (h : sessionSend logger stop bufLen ps = .ok rs) :
+    rs.length ≤ ps.length ∧
+    ∀ (i : Nat) (r : List Handed × Option SendErr), rs[i]? = some r → ∃ p : Pkt, ps[i]? = some p ∧ autoFrag logger bufLen p.m p.draw p.env = .ok r := by
+  induction ps generalizing rs with
+  | nil =>
+    simp only [sessionSend, ok.injEq] at h; subst h
+    exact ⟨by simp, by intro i r hr; simp at hr⟩
+  | cons p ps ih =>
+    rw [sessionSend] at h
+    obtain ⟨r0, h0, h⟩ := bind_eq_ok h
+    split at h
+    · simp only [ok.injEq] at h; subst h
+      refine ⟨by simp, ?_⟩
+      intro i r hr
+      cases i with
+      | zero => simp only [List.getElem?_cons_zero, Option.some.injEq] at hr; subst hr; exact ⟨p, by simp, h0⟩
+      | succ i => simp at hr
+    · obtain ⟨rs', h1, h⟩ := bind_eq_ok h
+      simp only [ok.injEq] at h; subst h
+      obtain ⟨hl, hg⟩ := ih rs' h1
+      refine ⟨by simp only [List.length_cons]; omega, ?_⟩
+      intro i r hr
+      cases i with
+      | zero => simp only [List.getElem?_cons_zero, Option.some.injEq] at hr; subst hr; exact ⟨p, by simp, h0⟩
+      | succ i =>
+        simp only [List.getElem?_cons_succ] at hr ⊢
+        exact hg i r hr
+
+theorem sessionSend_mem (logger stop : Bool) (bufLen : Nat) (ps : List Pkt)
+    (rs : List (List Handed × Option SendErr)) (h : sessionSend logger stop bufLen ps = .ok rs)
+    (r : List Handed × Option SendErr) (hr : r ∈ rs) :
+    ∃ p ∈ ps, autoFrag logger bufLen p.m p.draw p.env = .ok r := by
+  obtain ⟨i, hi, e⟩ := List.getElem_of_mem hr
+  obtain ⟨p, hp, ha⟩ := (sessionSend_get logger stop bufLen ps rs h).2 i r (by rw [List.getElem?_eq_getElem hi, e])
+  exact ⟨p, List.mem_of_getElem? hp, ha⟩
+
+theorem sessionSend_noPanic (logger stop : Bool) (bufLen : Nat) (ps : List Pkt) :
+    NoPanic (sessionSend logger stop bufLen ps) := by
+  induction ps with
+  | nil => simp [sessionSend]
+  | cons p ps ih =>
+    rw [sessionSend]
+    refine noPanic_bind _ _ ?_ fun r _ => ?_
+    · rw [autoFrag_spec]
+      split
+      · simp
+      · split
+        · simp
+        · split
+          · simp
+          · simp
+          · rw [fragUDP_spec]; simp
+    · split
+      · simp
+      · exact noPanic_bind _ _ ih fun _ _ => by simp
+
+/-- the fragment set a packet is cut into (when the transport refuses it whole and the splitter
+    produces at least two fragments) -/
+def fragSetOf (p : Pkt) : Option (UDPMessage × List UDPMessage) :=
+  match (p.env 0).resp with
+  | .tooLarge L =>
+    match fragUDP p.withID L with
+    | .ok fs => if 2 ≤ fs.length then some (p.withID, fs) else none
+    | _ => none
+  | _ => none
+
+theorem fragSetOf_isFragSet (p : Pkt) (a : UDPMessage × List UDPMessage) (h : fragSetOf p = some a) :
+    a.1 = p.withID ∧ IsFragSet a.1 a.2 := by
+  unfold fragSetOf at h
+  split at h
+  · rename_i L hr
+    split at h
+    · rename_i fs hfs
+      split at h
+      · rename_i h2
+        simp only [Option.some.injEq] at h; subst h
+        rcases fragUDP_outcome _ L fs hfs with rfl | ⟨rfl, _⟩ | ⟨hS, _, _⟩
+        · simp at h2
+        · simp at h2
+        · exact ⟨rfl, hS⟩
+      · simp at h
+    · simp at h
+  · simp at h
+
+/-- every datagram of a send that left is the serialization of the whole message (with packet id
+    0 or the drawn one) or of a member of the packet's fragment set -/
+theorem autoFrag_delivered_cases (logger : Bool) (bufLen : Nat) (p : Pkt)
+    (r : List Handed × Option SendErr) (h : autoFrag logger bufLen p.m p.draw p.env = .ok r)
+    (b : Bytes) (hb : b ∈ delivered r.1) :
+    b = serialize p.m ∨ b = serialize p.withID ∨
+      ∃ a, fragSetOf p = some a ∧ ∃ f ∈ a.2, b = serialize f := by
+  rw [autoFrag_spec] at h
+  split at h
+  · simp only [ok.injEq] at h; subst h; simp [delivered] at hb
+  · split at h
+    · simp only [ok.injEq] at h; subst h; simp [delivered] at hb
+    · rename_i hlog hbuf
+      split at h
+      · simp only [ok.injEq] at h; subst h
+        simp [delivered] at hb; exact Or.inl hb
+      · simp only [ok.injEq] at h; subst h; simp [delivered] at hb
+      · rename_i L hr
+        obtain ⟨fs, hfs, h⟩ := bind_eq_ok h
+        simp only [ok.injEq] at h; subst h
+        have hfs' : fragUDP p.withID L = .ok fs := hfs
+        have hsz : size p.withID = size p.m := rfl
+        have hfit : ∀ f ∈ fs, size f ≤ bufLen := fun f hf => by
+          have := frag_size_le _ L fs hfs' f hf; rw [hsz] at this; omega
+        have hb' : b ∈ delivered (sendFrags logger bufLen p.env 1 fs).1 := by
+          simpa [delivered] using hb
+        obtain ⟨j, k, _, _, _, _, s2, _⟩ := sendFrags_spec logger bufLen p.env fs hfit 1
+        rw [s2] at hb'
+        obtain ⟨f, hf, e⟩ := List.mem_map.mp hb'
+        have hf := List.mem_of_mem_take hf
+        rcases fragUDP_outcome _ L fs hfs' with rfl | ⟨rfl, _⟩ | ⟨hS, _, _⟩
+        · simp at hf
+        · simp only [List.mem_singleton] at hf; subst hf; exact Or.inr (Or.inl e.symm)
+        · right; right
+          refine ⟨(p.withID, fs), ?_, f, hf, e.symm⟩
+          unfold fragSetOf
+          simp only [hr, hfs']
+          rw [if_pos hS.two]
+
 end Hy.Frag
